@@ -311,6 +311,20 @@ CLAIMED = {
         note="two crashes repaired in /repo (recursion, table EOF assertion).",
         technique="Coq proof (rank function over an extracted graph, list induction) + translator + "
                   "totality/skeleton run on the real parser"),
+    "C01": dict(
+        category="proof",
+        text="TC: a hand-written Gallina model of html5parser.py (23 phases handler by handler, adoption agency, foster "
+             "parenting, reconstruction/Noah's Ark, foreign-content dispatch, insertion-mode reset, fragment set-up) "
+             "over an arena model of the DOM tree builder, driven by the REGENERATED tokenizer model; every Python "
+             "assert/unchecked index is an explicit crash outcome. Tied to html5lib.parse/parseFragment by exact tree "
+             "agreement on generated markup (deviation switches off); the property is decided against the same model "
+             "with the WHATWG switches on, every difference classified by flipping one switch at a time. Theorems: "
+             "all 24 tables and the 23 dispatch tables re-read from the source equal the fixed copies TC was written "
+             "against; the scope walk always stops. PARTIAL: no theorem relates TC to the standard (it IS the "
+             "transcription) and the agreement implementation = TC is tested, not proved; 5 listed findings.",
+        design_ref="DESIGN.md 3 C01",
+        note="five deviations repaired in /repo; 189 parser functions hash-pinned.",
+        technique="Coq model + table-equality theorems + differential correspondence on trees (extracted OCaml)"),
 }
 
 PENDING_REASON = "not yet built in this round (planned: Coq model + theorems per DESIGN.md section 3); no check is registered, so nothing is claimed"
